@@ -59,12 +59,15 @@ ASSUMPTIONS = [
     "cases whose allowance exceeds 1e-3 of the state (apocentre -> pericentre of e~1 orbits in one half step) are "
     "checked but not counted as non-trivial",
 ]
+PRELUDE_NAMES = ["whfast:jacobi", "whfast:democraticheliocentric", "whfast:whds", "whfast:barycentric", "saba",
+                 "ias15", "leapfrog", "mercurius", "trace"]
 CLASSES = ["direct/elliptic", "direct/hyperbolic", "direct/dt>P", "direct/dt>100P", "direct/peri_high_e",
            "direct/dt<0", "direct/tiny_dt", "direct/near_parabolic", "direct/known_region", "direct/known_hang",
            "direct/loose_tolerance", "terminates/in_hyperbolic_region", "terminates/known_hang"] + \
           ["step/%s:asserted" % k for k in ("whfast:jacobi", "whfast:democraticheliocentric", "whfast:whds",
                                             "whfast:barycentric", "saba", "mercurius", "trace")] + \
-          ["step/massive_planet", "step/loose_tolerance", "step512/whfast512:asserted", "step512/padded",
+          ["step/massive_planet", "step/loose_tolerance", "step/prelude"] + ["step/prelude:" + k for k in PRELUDE_NAMES] + \
+          [ "step512/whfast512:asserted", "step512/padded",
            "step512/known_region", "step512/known_padding_region"] + ["step512/lane%d" % i for i in range(8)]
 VARIANTS = ["avx512"]
 
@@ -403,8 +406,7 @@ SCHEMES = {
 G_CHOICES = [1.0, 4 * math.pi ** 2, 0.9, 6.674e-11, 2.959122082855911e-04]
 
 
-PRELUDE_SCHEMES = ["whfast:jacobi", "whfast:democraticheliocentric", "whfast:whds", "whfast:barycentric", "saba",
-                   "ias15", "leapfrog", "mercurius", "trace"]
+PRELUDE_SCHEMES = PRELUDE_NAMES
 prelude_item = st.tuples(st.sampled_from(PRELUDE_SCHEMES), st.integers(1, 3),
                          st.sampled_from([0.01, 0.02, 0.05, -0.02]), st.sampled_from([1, 0]))
 # history of the SAME simulation before the measured step: k steps of other schemes / coordinate systems
@@ -466,28 +468,39 @@ def _configure(sim, sch, safe_mode):
         raise ValueError(sch)
 
 
+_step_state = {}
+
+
 def _step_call(a):
+    """op "prepare": build the simulation, run the prelude, select the scheme under test, return the state right
+    before the measured step; op "step": take the measured step on that simulation.  Default: both."""
     import warnings
     import rebound
     warnings.simplefilter("ignore")
-    sim = rebound.Simulation()
-    sim.G = a["G"]
-    for p in a["particles"]:
-        sim.add(m=p[6], x=p[0], y=p[1], z=p[2], vx=p[3], vy=p[4], vz=p[5])
+    op = a.get("op", "both")
     sch = a["scheme"]
-    for psch, k, frac, sm in a.get("prelude", []):
-        _configure(sim, psch, sm)
-        sim.dt = frac * a["P"]
-        try:
-            sim.steps(k)
-        except (rebound.Escape, rebound.Encounter, rebound.Collision):
-            pass
-        sim.synchronize()
-    _configure(sim, sch, a["safe_mode"])
-    pre = []
-    for i in range(sim.N):
-        p = sim.particles[i]
-        pre.append((p.x, p.y, p.z, p.vx, p.vy, p.vz))
+    if op in ("prepare", "both"):
+        sim = rebound.Simulation()
+        sim.G = a["G"]
+        for p in a["particles"]:
+            sim.add(m=p[6], x=p[0], y=p[1], z=p[2], vx=p[3], vy=p[4], vz=p[5])
+        for psch, k, frac, sm in a.get("prelude", []):
+            _configure(sim, psch, sm)
+            sim.dt = (abs(frac) if psch == "trace" else frac) * a["P"]     # TRACE: forward steps only
+            try:
+                sim.steps(k)
+            except (rebound.Escape, rebound.Encounter, rebound.Collision):
+                pass
+            sim.synchronize()
+        _configure(sim, sch, a["safe_mode"])
+        pre = []
+        for i in range(sim.N):
+            p = sim.particles[i]
+            pre.append((p.x, p.y, p.z, p.vx, p.vy, p.vz))
+        _step_state["sim"] = sim
+        if op == "prepare":
+            return pre, sim.t
+    sim = _step_state["sim"]
     t0 = sim.t
     sim.dt = a["dt"]
     sim.step()
@@ -501,7 +514,8 @@ def _step_call(a):
     for i in range(sim.N):
         p = sim.particles[i]
         out.append((p.x, p.y, p.z, p.vx, p.vy, p.vz))
-    return out, sim.t, enc, pre, t0
+    _step_state.pop("sim", None)
+    return out, sim.t, enc, t0
 
 
 PAD_R3 = 1.0e6       # WHFast512 pads unused lanes with particles at r ~ 100 (length units of the simulation)
@@ -528,7 +542,6 @@ def run_step(c, ctx):
         P = abs(dt / o["dtP"])
         o = dict(o, dtP=dtP, w512=True)
         dt = dtP * P
-    nt = classify(o, e, f, ctx)
     ctx.cls(sch)
     if m1 > 0:
         ctx.cls("massive_planet")
@@ -568,10 +581,58 @@ def run_step(c, ctx):
             o = dict(o, pad_region=True)
     arg = {"G": G, "particles": parts, "scheme": sch, "safe_mode": c["safe_mode"], "dt": dt}
     w = worker("step", _step_call)
+    pl = c.get("prelude") or []
+    if pl and o["hyp"] and o["e_hyp"] - 1.0 < 0.02:
+        pl = []          # keep the prelude's own (short) steps far outside the known hyperbolic region
+    t0 = 0.0
+    f_eff = f
+    if pl:
+        # history on the same simulation: k steps of other schemes, then switch to the scheme under test.
+        # The reference is the state read right before the measured step: the prelude's accuracy is irrelevant.
+        P0 = abs(dt / o["dtP"])
+        arg = dict(arg, prelude=[list(x) for x in pl], P=P0, op="prepare")
+        status, val = w.call(arg)
+        if status != "ok":
+            if status == "hang" and o["hyp"] and ctx.finding_open(KEY_HANG):
+                ctx.skip("prelude did not return on a hyperbolic orbit (known hang family)")
+                return
+            raise Violation("prelude %r %s: %s" % (pl, "does not terminate" if status == "hang" else "crashed", val),
+                            arg=arg)
+        pre, t0 = val
+        if not all(finite6(x) for x in pre):
+            ctx.skip("prelude left a non-finite state")
+            return
+        star = list(pre[0]) + [m0]
+        plan = list(pre[ip]) + [m1]
+        info = {}
+        try:
+            KM.propagate([plan[k] - star[k] for k in range(3)], [plan[3 + k] - star[3 + k] for k in range(3)],
+                         G * (m0 + m1), 0.0, info)
+        except (ValueError, ArithmeticError, ZeroDivisionError):
+            ctx.skip("state after the prelude is outside the oracle's domain")
+            return
+        e_eff, a_eff = info["e"], abs(info["a"])
+        P_eff = 2 * math.pi * math.sqrt(a_eff ** 3 / (G * (m0 + m1)))
+        dtP_eff = dt / P_eff
+        if abs(1.0 - e_eff) < 1e-6 or e_eff > 50.0 or not (1e-8 <= abs(dtP_eff) <= 1e3):
+            ctx.skip("orbit after the prelude is outside the property's quantifier")
+            return
+        hyp_eff = info["kind"] == "hyperbolic"
+        o = dict(o, hyp=hyp_eff, e_hyp=e_eff if hyp_eff else o["e_hyp"], e_ell=e_eff if not hyp_eff else o["e_ell"],
+                 dtP=dtP_eff)
+        e = e_eff
+        rr = math.sqrt(sum((plan[k] - star[k]) ** 2 for k in range(3)))
+        cf = (a_eff * abs(1 - e_eff * e_eff) / rr - 1.0) / e_eff if e_eff > 0 else 1.0
+        f_eff = math.acos(max(-1.0, min(1.0, cf)))
+        ctx.cls("prelude")
+        for x in pl:
+            ctx.cls("prelude:" + x[0])
+        arg = dict(arg, op="step")
+    nt = classify(o, e, f_eff, ctx)
     status, val = w.call(arg)
     if status != "ok":
         return not_returned(ctx, o, status, val, "one step of %s" % sch, arg=arg)
-    out, t1, enc = val
+    out, t1, enc, t0 = val
     s1, p1 = out[0], out[ip]
     if enc >= 2:
         # MERCURIUS / TRACE decided that the planet has a close encounter (with the star) during this step and
@@ -625,9 +686,9 @@ def run_step(c, ctx):
         fp, fs = float(mm0 / mM), float(mm1 / mM)
     finally:
         mpmath.mp.dps = old
-    if rb_dbits(t1) != rb_dbits(dt):
-        raise Violation("one step of %s from t=0 with dt=%r ends at t=%r" % (sch, dt, t1), arg=arg)
-    if m1 > 0:
+    if (rb_dbits(t1) != rb_dbits(dt)) if t0 == 0.0 else (abs(t1 - (t0 + dt)) > 8 * EPS * max(abs(t0), abs(dt), abs(t1))):
+        raise Violation("one step of %s from t=%r with dt=%r ends at t=%r" % (sch, t0, dt, t1), arg=arg)
+    if m1 > 0 or any(x != 0.0 for x in star[0:6]):
         # inertial frame: conversions to/from Jacobi/heliocentric coordinates and the centre-of-mass drift round
         # at the size of the inertial coordinates
         xi = max(n3(star[0:3]), n3(plan[0:3]), n3(s1[0:3]), n3(p1[0:3])) + max(n3(star[3:6]), n3(plan[3:6])) * abs(dt)
